@@ -102,7 +102,20 @@ fn history_engines(tier: Tier, budget: f64) -> (BfsStats, Vec<Found>, Vec<String
     merge_stats(&mut stats, &r.stats);
     found.extend(r.found);
     models.extend(r.models);
+    let r = crate::payflow::explore(tier, true, budget / 4.0);
+    merge_stats(&mut stats, &r.stats);
+    found.extend(r.found);
+    models.extend(r.models);
     (stats, found, models)
+}
+
+pub fn c06(tier: Tier) -> i32 {
+    let mut run = Run::new("C06", tier, "model_checking", "payflow");
+    let r = crate::payflow::explore(tier, false, tier.pick(45.0, 1500.0));
+    let others = add_found(&mut run, "C06", &r.found);
+    run.assume("two channels, approved hash H1 (keysend of 100_000 sat) and unapproved hash H2; in-flight value defined on the two current commitments of each channel with max (outgoing) / min (incoming) of the two views; routing-fee allowance 222_000 msat (regtest default)");
+    run.assume("histories of <= 4 (6) letters; commitment numbers <= 3 per side");
+    run.finish(mc_coverage(&r.stats, &r.models, json!({"violations_of_other_properties_seen": others})))
 }
 
 pub fn c10(tier: Tier) -> i32 {
@@ -213,6 +226,7 @@ pub fn dump(engine: &str, tier: Tier) -> i32 {
         "node" => crate::nodemc::explore(tier, true, 900.0).found,
         "c15" => crate::nodemc::explore(tier, false, 900.0).found,
         "vel" => crate::nodevel::explore(tier, false, 900.0).found,
+        "pay" => crate::payflow::explore(tier, false, 900.0).found,
         _ => vec![],
     };
     for f in &found {
